@@ -682,9 +682,72 @@ def run_case(case, o: Oracle) -> None:
             with o.spsdk("reexport"):
                 o.check("reexport", bytes(parsed.export()) == data, "differs", "export() of the parsed image is not the parsed bytes")
 
+    # ---- (e) `nxpimage ahab re-sign`: the container signed again in place is again signed by the selected SRK (or its certificate key)
+    if walked is not None and v_ok:
+        _resign(case, plan, conts, wd, data, deks, t, o)
+
     # ---- (d) tampering
     if walked is not None:
         _tamper(case, tm, walked, data, deks, o)
+
+
+def _resign(case, plan, conts, wd: str, data: bytes, deks: dict, t, o: Oracle) -> None:
+    from spsdk.crypto.signature_provider import get_signature_provider
+    from spsdk.exceptions import SPSDKError
+    from spsdk.image.ahab.utils import ahab_re_sign
+
+    def provider(desc):  # as the command builds it from its -k option
+        return get_signature_provider(local_file_key=_key_file(desc, "pem"), pss_padding=True)
+
+    for ci, c in enumerate(conts):
+        if c["srk_set"] != "oem":
+            continue
+        signer = _key_desc(c["keys"], c["used"])
+        if plan["containers"][ci]["cert"] and "container" in c["cert"]["perms"]:
+            signer = _cert_key_desc(c)
+        path = os.path.join(wd, "resign_%d.bin" % ci)
+        with open(path, "wb") as f:
+            f.write(data)
+        done = False
+        with o.spsdk("resign", "right_key"):
+            ahab_re_sign(case["dev"], path, ci, provider(signer))
+            done = True
+        if done:
+            with open(path, "rb") as f:
+                again = f.read()
+            o.eq("resign", "length", len(again), len(data))
+            try:
+                w2 = A.walk(again, t["max_cnt"], deks)  # verifies every container signature with the SRK the container selects
+                o.eq("resign", "used_srk_id", w2[ci]["used_srk_id"], c["used"])
+            except A.Reject as exc:
+                o.fail("resign", "reject:" + _kind(str(exc)), "after re-signing container %d with the right key: %s" % (ci, exc))
+            o.label("resigned")
+        # another SRK's key is not the selected one: the command must refuse and leave the file alone
+        if not (plan["containers"][ci]["cert"] and "container" in c["cert"]["perms"]):
+            other = _key_desc(c["keys"], (c["used"] + 1) % 4)
+            with open(path, "wb") as f:
+                f.write(data)
+            refused = False
+            try:
+                ahab_re_sign(case["dev"], path, ci, provider(other))
+            except SPSDKError:
+                refused = True
+            except (CaseFailed, SkipCase, HarnessError, KeyboardInterrupt):
+                raise
+            except BaseException as exc:  # noqa: BLE001
+                o.fail("resign", "wrong_key:exc:%s" % type(exc).__name__, str(exc)[:300], spsdk_frame(exc))
+                refused = True
+            with open(path, "rb") as f:
+                after = f.read()
+            if not refused:
+                try:
+                    A.walk(after, t["max_cnt"], deks)
+                    o.fail("resign", "wrong_key_accepted_but_verifies", "container %d re-signed with SRK %d's key still verifies with SRK %d" % (ci, (c["used"] + 1) % 4, c["used"]))
+                except A.Reject as exc:
+                    o.fail("resign", "wrong_key_accepted", "container %d (selected SRK %d) was re-signed with the key of SRK %d and written: %s" % (ci, c["used"], (c["used"] + 1) % 4, exc))
+            else:
+                o.check("resign", after == data, "refused_but_file_changed", "container %d" % ci)
+            o.label("resign_wrong_key")
 
 
 def _compare_walk(case, t, plan, walked, data, o: Oracle) -> None:
